@@ -1359,3 +1359,139 @@ func isFieldLoadNamed(v ssa.Value, name string) bool {
 	fld := fieldLoadOf(v)
 	return fld != nil && fld.Name() == name
 }
+
+// domPrevLevel: the layered store is one logical store: a node that is in its
+// previous level is in the store. LevelNodeDB.getNode hands back the current
+// level's miss only when there is no other level to ask (prev == current);
+// otherwise the previous level's answer is the answer. A lookup that gives up
+// early for some configurations (a persistent current level, say) reports
+// present nodes as missing: false "missing nodes", failed lookups, a repair that
+// cannot complete.
+func domPrevLevel(r *engine.Run, rule string) {
+	f := r.Fn(rule, pkgUtil, "LevelNodeDB", "getNode")
+	if f == nil {
+		return
+	}
+	// the current level's lookup: an invoke of GetNode on the value loaded from field current
+	var curCall *ssa.Call
+	engine.Instrs(f, func(in ssa.Instruction) {
+		c, ok := in.(*ssa.Call)
+		if !ok || !c.Call.IsInvoke() || c.Call.Method.Name() != "GetNode" {
+			return
+		}
+		if fld := fieldLoadOf(c.Call.Value); fld != nil && fld.Name() == "current" {
+			curCall = c
+		}
+	})
+	if curCall == nil {
+		r.Anchor(rule, fmt.Errorf("unresolved anchor: lookup in the current level in %s", fn(f)))
+		return
+	}
+	errv := extractOf(curCall, 1)
+	n := 0
+	o := ord{}
+	for _, ret := range engine.Returns(f) {
+		if len(ret.Results) != 2 || errv == nil || resultValue(ret, 1) != ssa.Value(errv) {
+			continue
+		}
+		// only the miss path: where the error is known nil the return is the hit
+		n++
+		good, hit := false, false
+		if facts, ok := engine.FactsOn(f, ret.Block()); ok {
+			for _, ft := range facts {
+				if ft.Kind != "eq" {
+					continue
+				}
+				if ft.Truth && (ft.A == ssa.Value(errv) && nilConst(ft.B) || ft.B == ssa.Value(errv) && nilConst(ft.A)) {
+					hit = true
+				}
+				fa, fb := fieldLoadOf(ft.A), fieldLoadOf(ft.B)
+				if ft.Truth && fa != nil && fb != nil && (fa.Name() == "prev" && fb.Name() == "current" || fa.Name() == "current" && fb.Name() == "prev") {
+					good = true
+				}
+			}
+		}
+		if hit {
+			r.OK(rule, o.next(fn(f)+"|current level's answer returned"), r.P.Pos(ret.Pos()), "the hit of the current level")
+			continue
+		}
+		r.Check(good, rule, o.next(fn(f)+"|current level's answer returned"), r.P.Pos(ret.Pos()), "the current level's miss is final only where prev == current tested true",
+			"the layered store reports the current level's miss without having asked the previous level on a path where the two levels differ: nodes that live in the previous level are reported absent (false missing-node reports, lookups of present entries fail, and a repair that put nodes there cannot be read)")
+	}
+	if n < 1 {
+		r.Anchor(rule, fmt.Errorf("unresolved anchor: return of the current level's error in %s", fn(f)))
+	}
+}
+
+// domFullWalk: the node stores' iterate functions are what MergeState, MergeDB and
+// the validators trust to have seen every node when they return nil. Inside
+// their loops the only ways out are the end of the collection and an error
+// return; a break (or any other jump out of the loop body) that ends in
+// `return nil` reports a partial walk as a complete one.
+func domFullWalk(r *engine.Run, rule string) {
+	n := 0
+	for _, f := range funcsOfPkg(r, pkgUtil) {
+		if len(f.Blocks) == 0 || !(f.Name() == "iterate" || f.Name() == "Iterate") {
+			continue
+		}
+		rn := recvNamed(f)
+		if rn != "MemoryNodeDB" && rn != "LevelNodeDB" && rn != "PNodeDB" {
+			continue
+		}
+		o := ord{}
+		for _, h := range f.Blocks {
+			// a range loop head: the block holding the Next of a range over the store's collection
+			isHead := false
+			for _, in := range h.Instrs {
+				if _, ok := in.(*ssa.Next); ok {
+					isHead = true
+				}
+			}
+			if !isHead {
+				continue
+			}
+			cyc := cycleOf(h)
+			if cyc == nil {
+				continue
+			}
+			n++
+			bad := ""
+			for b := range cyc {
+				if b == h {
+					continue
+				}
+				for _, s := range b.Succs {
+					if cyc[s] {
+						continue
+					}
+					// an edge out of the loop body: may it end in a nil return?
+					seen := map[*ssa.BasicBlock]bool{}
+					var dfs func(x *ssa.BasicBlock)
+					dfs = func(x *ssa.BasicBlock) {
+						if seen[x] || cyc[x] || bad != "" {
+							return
+						}
+						seen[x] = true
+						if ret, ok := x.Instrs[len(x.Instrs)-1].(*ssa.Return); ok {
+							for i := range ret.Results {
+								if isErrorType(ret.Results[i].Type()) && nilConst(resultValue(ret, i)) {
+									bad = r.P.Pos(b.Instrs[len(b.Instrs)-1].Pos())
+								}
+							}
+							return
+						}
+						for _, s2 := range x.Succs {
+							dfs(s2)
+						}
+					}
+					dfs(s)
+				}
+			}
+			r.Check(bad == "", rule, o.next(fn(f)+"|walk"), r.P.Pos(f.Pos()), "the loop is left only at the end of the collection or with an error",
+				"the store's walk can leave its loop early ("+bad+") and still return nil: the caller (MergeState, MergeDB, a validator) takes nil for 'every node was visited', so a repair that copied only part of the donor reports success and the trie keeps its missing nodes")
+		}
+	}
+	if n < 1 {
+		r.Anchor(rule, fmt.Errorf("unresolved anchor: no iteration loop found in the node stores"))
+	}
+}
